@@ -9,10 +9,11 @@ git -C /repo worktree add --detach $wt HEAD >/dev/null 2>&1 || { echo "cannot cr
 cd $wt
 export PYTHONPATH=$wt OMP_NUM_THREADS=2 TQDM_DISABLE=1 PYTHONDONTWRITEBYTECODE=1
 if grep -q "/tmp/wt/r" $src/demo.py; then echo "NOTE: demo mentions an absolute worktree path"; fi
-timeout 600 /venv/bin/python $src/demo.py > /tmp/seedconf_${id}_clean.out 2>&1; c=$?
+cp $src/demo.py $wt/demo.py          # demos may look for test data next to themselves
+timeout 600 /venv/bin/python $wt/demo.py > /tmp/seedconf_${id}_clean.out 2>&1; c=$?
 git apply $src/patch.diff || { echo "patch does not apply"; git -C /repo worktree remove --force $wt; exit 2; }
 files=$(git diff --name-only | tr '\n' ' ')
-timeout 600 /venv/bin/python $src/demo.py > /tmp/seedconf_${id}_mut.out 2>&1; m=$?
+timeout 600 /venv/bin/python $wt/demo.py > /tmp/seedconf_${id}_mut.out 2>&1; m=$?
 t=$(timeout 3000 /venv/bin/python -m pytest -q -p no:cacheprovider --timeout=900 test 2>&1 | tail -1)
 nf=$(timeout 10 true; echo "$t")
 cd /
